@@ -4,7 +4,13 @@ use crate::engine::{facts::Facts, knowledge_base::KnowledgeBase, rule::Rule};
 use crate::errors::{Result, RuleEngineError};
 use crate::types::{ActionType, Value};
 use std::collections::HashMap;
+#[cfg(rre_verif_shuttle)]
+use shuttle::sync::{Arc, Mutex, RwLock};
+#[cfg(rre_verif_shuttle)]
+use shuttle::thread;
+#[cfg(not(rre_verif_shuttle))]
 use std::sync::{Arc, Mutex, RwLock};
+#[cfg(not(rre_verif_shuttle))]
 use std::thread;
 use std::time::{Duration, Instant};
 
